@@ -211,6 +211,31 @@ impl InterpreterParams {
     }
 }
 
+/// Verification hooks: read-only observers of internal interpreter state.
+/// Compiled only under the `fuellabs_fuel_vm_verif` cargo feature.
+#[cfg(feature = "fuellabs_fuel_vm_verif")]
+impl<M, S, Tx, Ecal, V> Interpreter<M, S, Tx, Ecal, V> {
+    /// Number of call frames currently on the call stack.
+    pub fn verif_call_depth(&self) -> usize {
+        self.frames.len()
+    }
+
+    /// Contract ids of the call frames currently on the call stack, outermost first.
+    pub fn verif_call_stack_ids(&self) -> Vec<ContractId> {
+        self.frames.iter().map(|f| *f.to()).collect()
+    }
+
+    /// The VM's internal free balance of `asset`, if the asset is tracked.
+    pub fn verif_runtime_balance(&self, asset: &AssetId) -> Option<Word> {
+        self.balances.balance(asset)
+    }
+
+    /// Keys currently held by the in-transaction storage slot cache.
+    pub fn verif_slot_cache_keys(&self) -> Vec<(ContractId, Bytes32)> {
+        self.storage_slot_cache.keys().copied().collect()
+    }
+}
+
 /// Sometimes it is possible to add some additional context information
 /// regarding panic reasons to simplify debugging.
 // TODO: Move this enum into `fuel-tx` and use it inside of the `Receipt::Panic` as meta
